@@ -263,7 +263,7 @@ SUBCHECKS = [
     SubCheck("arrival_and_reverse_azimuth", check_arrival, strategy=pairs(), nontrivial=_nt, classes=_classes,
              quick=3000, thorough=300000, shards_quick=4, shards_thorough=16,
              seq_groups=[["ell"], ["lat1", "lon1"], ["lat2", "lon2", "pair"]],
-             rule="exact direct geodesic with (distance, azimuth1to2) arrives within 2 mm of point 2; azimuth2to1 = arrival azimuth + 180"),
+             fresh=(8, 64, 3), rule="exact direct geodesic with (distance, azimuth1to2) arrives within 2 mm of point 2; azimuth2to1 = arrival azimuth + 180"),
     SubCheck("angle_classes", check_angle_classes, strategy=kind_pairs, nontrivial=_nt, classes=_classes, quick=1500, thorough=100000,
              shards_quick=2, shards_thorough=8, rule="vincinv with the five angle classes == vincinv with their .dec() values (exact)"),
     SubCheck("swap_symmetry", check_swap, strategy=pairs(), nontrivial=_nt, classes=_classes,
